@@ -27,7 +27,7 @@ def run(tier, seed):
     results, rows = [], {}
     for mode in ("flags", "turn"):
         ep = os.path.join(work, "config_%s.ndjson" % mode)
-        r = vlib.run_tlc('Config', dict(constants=dict(Mode='"%s"' % mode), action_constraint='Emit'), workers=4, edges_path=ep, timeout=600)
+        r = vlib.run_tlc('Config', dict(constants=dict(Mode='"%s"' % mode, MaxOff=2 if tier == "quick" else 3), action_constraint='Emit'), workers=4, edges_path=ep, timeout=600)
         rows[mode] = r['edges']
         args = ['config-grid', '-edges', ep, '-thruserv', srv]
         results.append(vlib.run_vh_sharded(args, 12, timeout=3000))
@@ -35,7 +35,7 @@ def run(tier, seed):
     for viol in res['violations']:
         v.violation(viol['sig'], viol.get('replay'))
     v.coverage = dict(evaluations=res['behaviours'], distinct_nontrivial=res['distinct'],
-                      rule="one real server process per enumerated configuration (flags: <=2 flags off default + all-small + all-zero; turn: spelling x peer-id class); non-trivial = every configuration except the all-default one",
+                      rule="one real server process per enumerated configuration (flags: <=2 (thorough: <=3) flags off default + all-small + all-zero; turn: spelling x peer-id class); non-trivial = every configuration except the all-default one",
                       samples=res['samples'][:8], exhaustive=True, configurations=rows)
     v.assumptions = ["'small' values still permit one create and two connects (bursts of 3); a host asking for more receivers than the server allows is rightly refused",
                      "TURN server itself is not contacted (credentials are parsed, not used)"]
